@@ -66,10 +66,11 @@ static bool same_value(const ref::Arg &a, char t, const rtosc_arg_t &v, const ch
 }
 
 static const char *g_decode_base = nullptr;   // non-null: decode the message at this (unaligned) address instead of g_buf
+static bool g_large = false;                  // g_decode_base points at a large heap buffer (label only)
 static void check_decode(const std::string &types, const std::vector<ref::Arg> &args, size_t len, const std::string &cid)
 {
     const char *msg = g_decode_base ? g_decode_base : g_buf;
-    const std::string sh = shape(types) + (g_decode_base ? ",unaligned-address" : "");
+    const std::string sh = shape(types) + (g_large ? ",large-payload" : g_decode_base ? ",unaligned-address" : "");
     // the value-carrying and valueless tags, in order (brackets are not arguments)
     std::string tags; for(char t : types) if(t != '[' && t != ']') tags += t;
     std::vector<const ref::Arg *> per_tag; { size_t k = 0; for(char t : tags) per_tag.push_back(ref::has_data(t) ? &args[k++] : nullptr); }
@@ -193,6 +194,44 @@ static void one_message(const std::string &addr, const std::string &types, const
         vp::violation("null-buffer-size|amessage|" + shape(types), cid, "reports " + std::to_string(need) + " expected " + std::to_string(expect.size()));
 }
 
+// blobs and strings whose length lies around the multiples of 64 KiB (every length from 5 below to 5 above), with arguments in front and behind
+static void large_payloads()
+{
+    static const size_t CENTRES[] = {65536, 131072, 196608, 262144, 393216, 1048576};
+    static const char *SHAPES[] = {"bi", "ibh", "sbs", "si", "bb"};
+    vp::bound("large_payloads", "blob / string lengths 64K, 128K, 192K, 256K, 384K, 1M, each -5..+5, in shapes bi ibh sbs si bb: built by rtosc_amessage, compared with the reference bytes, read back by index and by iterator");
+    uint64_t top = 1u << 30;
+    for(size_t c : CENTRES) for(int d = -5; d <= 5; ++d) for(const char *sh : SHAPES) {
+        ++top; if(!vp::mine(top)) continue;
+        const size_t L = c + d; const std::string ts = sh;
+        std::string cid = "large|" + std::to_string(L) + "|" + ts;
+        if(!vp::want(cid)) continue;
+        vp::current_case() = cid; vp::state(); vp::eval(); vp::trace();
+        std::vector<ref::Arg> args;
+        bool big_used = false;
+        for(char t : ts) {
+            ref::Arg a; a.type = t;
+            if(t == 'b') { size_t n = big_used ? 7 : L; big_used = true; a.b.resize(n); for(size_t k = 0; k < n; ++k) a.b[k] = (uint8_t)(k * 31 + 7); a.b_len = (uint32_t)n; }
+            else if(t == 's') { size_t n = (ts[0] == 's' && !big_used && ts != "sbs") ? L : 3; if(n == L) big_used = true; a.s.assign(n, 'q'); for(size_t k = 0; k < n; k += 5) a.s[k] = (char)('a' + (k / 5) % 26); }
+            else if(t == 'h') a.u64 = 0x1122334455667788ull; else a.u32 = 0x01020304u;
+            args.push_back(a);
+        }
+        const std::string addr = "/big", expect = ref::encode(addr, ts, args);
+        vp::nontrivial(vp::fnv(cid));
+        std::vector<char> buf(expect.size() + 64, (char)0xA5);
+        std::vector<rtosc_arg_t> ra; for(auto &a : args) ra.push_back(gen::to_rtosc(a));
+        size_t r = rtosc_amessage(buf.data(), expect.size() + 32, addr.c_str(), ts.c_str(), ra.data());
+        vp::transition();
+        if(r != expect.size()) { vp::violation("length|amessage|" + shape(ts) + ",large-payload", cid, "returned " + std::to_string(r) + " expected " + std::to_string(expect.size())); continue; }
+        if(memcmp(buf.data(), expect.data(), r)) { size_t k = 0; while(buf[k] == expect[k]) ++k; vp::violation("bytes|amessage|" + shape(ts) + ",large-payload", cid, "first differing byte at offset " + std::to_string(k)); continue; }
+        memset(buf.data() + r, 0, buf.size() - r);
+        g_decode_base = buf.data(); g_large = true;
+        check_decode(ts, args, expect.size(), cid);
+        g_decode_base = nullptr; g_large = false;
+        vp::outcome("large-payload:" + ts);
+    }
+}
+
 int main(int argc, char **argv)
 {
     vp::init(argc, argv, "C01");
@@ -241,5 +280,6 @@ int main(int argc, char **argv)
         }
         if(ti % 97 == 0) vp::sample("address=" + gen::address(5) + " types='" + ts + "' value-vectors=" + std::to_string(vecs.size()));
     }
+    large_payloads();
     return vp::finish();
 }
